@@ -156,10 +156,30 @@ def _jaxpr_differs(c1, c2):
 def validate_translation(ctx: Ctx, fn, args, outs, sp: Space, npoints=2, rtol=1e-9, name=''):
   """Symbolic outputs evaluated at random points must equal the real jitted function."""
   jf = jax.jit(fn)
-  for _ in range(npoints):
+  for k_ in range(npoints):
     xv = sp.random_point(ctx.rng)
     conc = [a.evaluate(xv) if is_sym(a) else a for a in args]
     ref = jax.tree_util.tree_leaves(jf(*conc))
+    if k_ == 0 and os.environ.get('DVERIF_NO_EAGER') != '1':
+      # the same real function called EAGERLY on plain numpy arrays (no jit): same values, and the caller's arrays are left untouched
+      npin = [np.array(c, dtype=float) if is_sym(a) else c for a, c in zip(args, conc)]
+      keep = [np.array(c, copy=True) if isinstance(c, np.ndarray) else c for c in npin]
+      try:
+        eager = jax.tree_util.tree_leaves(fn(*npin))
+      except Exception as e_:  # noqa: BLE001
+        eager = None
+        ctx.res['notes'].append(f'{name}: eager numpy call raised {type(e_).__name__}')
+      if eager is not None:
+        mutated = any(isinstance(c, np.ndarray) and not np.array_equal(c, k0, equal_nan=True) for c, k0 in zip(npin, keep))
+        dmax = 0.0
+        for r_, e_ in zip(ref, eager):
+          r_ = np.asarray(r_, float); e_ = np.asarray(e_, float)
+          if r_.shape == e_.shape and np.all(np.isfinite(r_)):
+            dmax = max(dmax, float(np.abs(r_ - e_).max(initial=0.0)) / max(float(np.abs(r_).max(initial=0.0)), 1e-300))
+        if mutated or dmax > 1e-9:
+          ctx.violation(name + '.eager_numpy_call', dict(kind='eager_differs', mutated_inputs=bool(mutated)), dict(inputs=[np.asarray(c).tolist() for c in keep], max_rel_difference=dmax),
+                        f'{name}: calling the real function eagerly on numpy arrays ' + ('overwrites its input arrays' if mutated else f'gives values that differ from the jitted call by {dmax:.3e} (relative)'))
+          ctx.clause(name + '.eager_numpy_call', 'failed', queries=0)
     for o, r in zip(outs, ref):
       r = np.asarray(r, dtype=float)
       v = o.evaluate(xv) if is_sym(o) else np.asarray(o, dtype=float)
